@@ -8,7 +8,7 @@ Open Scope string_scope.
 Open Scope list_scope.
 
 (* ---- the property over everything that is probed: a request that returns quietly was well-formed ---- *)
-(* Full statement (all four findings repaired: D48, D49, D76, D79): *)
+(* Full statement (F1-F4 repaired: D48, D49, D76, D79; one finding open: F5): *)
 Definition C20_full : Prop := C20_full_statement.
 (* = forall p, WFprobe p -> impl p = Ok -> WellFormed p *)
 
@@ -21,22 +21,46 @@ Theorem C20_malformed_is_loud : forall p, WFprobe p -> guard p = true -> ~ WellF
 Proof. exact malformed_is_loud. Qed.
 Print Assumptions C20_malformed_is_loud.
 
-(* HEADLINE (F1, F2, F3, F4 repaired by D48, D49, D76, D79; switches Guards.fixed_F3 = fixed_F4 = true): the full statement,
-   no guard: every request that returns quietly was supported / well-formed *)
-Theorem C20_full_holds : C20_full_statement.
-Proof. exact (GuardsProofs.C20_full_when_fixed eq_refl eq_refl). Qed.
-Print Assumptions C20_full_holds.
-Theorem C20_full_malformed_is_loud : forall p, WFprobe p -> ~ WellFormed p -> loud_enough p (impl p).
-Proof. exact (GuardsProofs.malformed_is_loud_when_fixed eq_refl eq_refl). Qed.
-Print Assumptions C20_full_malformed_is_loud.
-(* the intermediate statement (D76 only) and the conditional forms, kept for the record *)
-Theorem C20_full_holds_modulo_F4 : forall p, WFprobe p -> guard_node_value_not_circuit p = true -> impl p = Ok -> WellFormed p.
-Proof. exact (GuardsProofs.C20_full_modulo_F4_when_F3_fixed eq_refl). Qed.
-Print Assumptions C20_full_holds_modulo_F4.
-(* the general form, valid whatever the switches say *)
-Theorem C20_full_when_fixed : fixed_F3 = true -> fixed_F4 = true -> C20_full_statement.
+(* HEADLINE on the current tree (F1-F4 repaired by D48, D49, D76, D79: Guards.fixed_F3 = fixed_F4 = true): the full
+   statement holds for every probe except a backend NAME that is not one of the documented ones (finding F5: 'JAX',
+   'Torch', 'jaxx', 'tensorflow' silently select the numpy backend; switch Guards.fixed_F5) *)
+Theorem C20_full_holds_modulo_F5 : forall p, WFprobe p -> guard_backend_documented p = true -> impl p = Ok -> WellFormed p.
+Proof. exact (GuardsProofs.C20_full_modulo_F5_when_F3_F4_fixed eq_refl eq_refl). Qed.
+Print Assumptions C20_full_holds_modulo_F5.
+(* with /verif/fixes/proposed_fix_C20_F5.diff and fixed_F5 := true: `C20_full_holds := C20_full_when_fixed eq_refl eq_refl eq_refl` *)
+Theorem C20_full_when_fixed : fixed_F3 = true -> fixed_F4 = true -> fixed_F5 = true -> C20_full_statement.
 Proof. exact GuardsProofs.C20_full_when_fixed. Qed.
 Print Assumptions C20_full_when_fixed.
+Theorem C20_full_malformed_is_loud_when_fixed : fixed_F3 = true -> fixed_F4 = true -> fixed_F5 = true ->
+  forall p, WFprobe p -> ~ WellFormed p -> loud_enough p (impl p).
+Proof. exact GuardsProofs.malformed_is_loud_when_fixed. Qed.
+Print Assumptions C20_full_malformed_is_loud_when_fixed.
+Theorem C20_refuted_backend_name : fixed_F5 = false -> ~ C20_full_statement /\ guard_backend_documented F5_probe = false.
+Proof. exact GuardsProofs.C20_refuted_backend_name. Qed.
+Print Assumptions C20_refuted_backend_name.
+Theorem C20_backend_name_repaired : forall v, documented_backend v = None -> backend_result true v = Err EPyRates.
+Proof. exact backend_name_repaired. Qed.
+Print Assumptions C20_backend_name_repaired.
+
+(* option values as strings: validation and dispatch are the same relation (==), for EVERY string and None *)
+Theorem C20_validated_solver_string_runs_what_it_names : forall b v, validate_solver_str b v = true ->
+  requested_method v = Some (solve_dispatch_str b v) /\ method_implemented b (solve_dispatch_str b v) = true.
+Proof. exact validated_dispatch_str. Qed.
+Print Assumptions C20_validated_solver_string_runs_what_it_names.
+Theorem C20_validated_solver_string_adaptivity : forall b v, validate_solver_str b v = true ->
+  is_integration_adaptive_str v = match solve_dispatch_str b v with MEuler | MHeun => false | _ => true end.
+Proof. exact validated_adaptive_str. Qed.
+Print Assumptions C20_validated_solver_string_adaptivity.
+Theorem C20_unvalidated_solver_string : forall b v, validate_solver_str b v = false ->
+  match requested_method v with Some m => method_implemented b m = false | None => True end.
+Proof. exact unvalidated_not_requested. Qed.
+Print Assumptions C20_unvalidated_solver_string.
+Theorem C20_solver_string_vs_matrix : forall b s,
+  validate_solver_str b (Some s) = existsb (solver_eqb (solver_of_string s)) (SUPPORTED_SOLVERS b).
+Proof. exact validate_solver_str_enum. Qed.
+Print Assumptions C20_solver_string_vs_matrix.
+
+(* the repaired findings, kept for the record *)
 Theorem C20_refuted_short_node_value : fixed_F4 = false -> ~ C20_full_statement /\ guard_node_value_not_circuit F4_probe = false.
 Proof. exact GuardsProofs.C20_refuted_short_node_value. Qed.
 Print Assumptions C20_refuted_short_node_value.
@@ -211,6 +235,8 @@ Example C20_nonvacuous :
   pop_outcome BJax SHeun true true ERun = Err ENotImpl /\ pop_outcome BJax SHeun true false EFunc = Err ENotImpl /\
   pop_outcome BJax SDiffrax true true ERun = Ok /\
   node_value F1_net ["all"; "ob"; "r"] = Err EPyRates /\ node_value F1_net ["all"; "oa"; "r"] = Ok /\
+  option_result (OSolver BDefault) (Some "Euler") = Err EPyRates /\ option_result (OSolver BJax) (Some "diffrax") = Ok /\
+  option_result OPrecision (Some "Float64") = Err EOther /\ option_result OMethod (Some "rk45") = Err EOther /\
   check_vname "q_buffer_1" = Err EPyRates /\ check_vname "buffer" = Ok /\
   toposort ["c"; "b"; "a"] [("a", "b"); ("b", "c")] = Some ["a"; "b"; "c"] /\
   toposort ["c"; "b"; "a"] [("a", "b"); ("b", "c"); ("c", "a")] = None.
